@@ -649,6 +649,7 @@ type lCase struct {
 	Twice    bool      `json:"twice"`    // execute the rule set twice on the same builder/engine (C15)
 	Inject2  []injDesc `json:"inject2"`  // with Reinject: the objects of the second execution (default: fresh copies of Inject)
 	Reinject bool      `json:"reinject"` // then inject FRESH objects under the same names into the same data context and execute again (C03)
+	Withdraw []string  `json:"withdraw"` // with Reinject: names taken out of the data context first, the way the pool's two-object wrapper does it: Del("", names...)
 	Hold     string    `json:"hold"`     // Hold("<name>") blocks until the adversary releases it (C18)
 	Model    string    `json:"model"`    // "" = sort model; "concurrent" = ExecuteConcurrent (C15: overlapping executions of several rules)
 }
@@ -797,6 +798,9 @@ func runLangCase(c *lCase) lObs {
 		second2 := c.Inject
 		if len(c.Inject2) > 0 {
 			second2 = c.Inject2
+		}
+		if len(c.Withdraw) > 0 {
+			dc.Del(append([]string{""}, c.Withdraw...)...)
 		}
 		for _, d := range second2 {
 			b, err := buildInj(d, rec)
